@@ -58,7 +58,7 @@ for sd in sorted(glob.glob(ROOT + '/C*-*')):
     arr_by = sorted(p for p, n in arrival['checks'].items() if n > 0)
     meta = {
         'id': sid, 'breaks_property': pid, 'title': props[pid]['title'],
-        'round': 2 if '-r2-' in sid else (3 if '-r3-' in sid else 1),
+        'round': next((n for n in (2, 3, 4, 5) if '-r%d-' % n in sid), 1),
         'origin': 'written by a fresh sub-agent that was given only the text of the property and a scratch worktree of /repo (nothing from /verif)',
         'files': {'patch': 'patch.diff', 'demonstration': 'demo.py', 'seeder_notes': 'README.seeder.md',
                   'validation': [f for f in ('validation.first.txt', 'validation.txt', 'recheck.txt') if os.path.exists(sd + '/' + f)]},
